@@ -26,3 +26,23 @@ extern "C" int clock_nanosleep(clockid_t clk, int flags, const struct timespec *
     long r = syscall(SYS_clock_nanosleep, clk, flags, req, rem);
     return r == 0 ? 0 : (int)-r;
 }
+
+// ---- virtual clock (opt-in): when vf::virtualNow() is non-negative every clock reads it (ns since the epoch) ----
+namespace vf
+{
+    inline long long &virtualNow()
+    {
+        static long long v = -1;
+        return v;
+    }
+}
+extern "C" int clock_gettime(clockid_t clk, struct timespec *ts)
+{
+    if (vf::virtualNow() >= 0)
+    {
+        ts->tv_sec = vf::virtualNow() / 1000000000LL;
+        ts->tv_nsec = vf::virtualNow() % 1000000000LL;
+        return 0;
+    }
+    return (int)syscall(SYS_clock_gettime, clk, ts);
+}
